@@ -7,13 +7,13 @@ cd "$wt" || exit 9
 demo=$(ls demo_*.py | head -1)
 export PYTHONPATH="$wt/src"
 with_rc=0; /venv/bin/python "$demo" > /tmp/demo_with.log 2>&1 || with_rc=$?
-git stash -q -- src
+git apply -R patch.diff || { echo 'cannot reverse patch'; exit 8; }
 if git diff --quiet HEAD -- src/DTAIDistanceC src/dtaidistance/*.pyx 2>/dev/null; then :; fi
 needs_build=$(grep -c "DTAIDistanceC\|\.pyx" patch.diff)
 if [ "$needs_build" -gt 0 ]; then /venv/bin/python setup.py build_ext --inplace -q > /tmp/mut_build.log 2>&1; fi
 without_rc=0; /venv/bin/python "$demo" > /tmp/demo_without.log 2>&1 || without_rc=$?
 /venv/bin/python -m pytest -q -p no:cacheprovider --timeout=900 tests/test_dtw.py tests/test_warping.py tests/test_bugs.py tests/test_cython.py 2>&1 | grep -E "passed|failed|error" | tail -1 > /tmp/t_without.log
-git stash pop -q
+git apply patch.diff
 if [ "$needs_build" -gt 0 ]; then /venv/bin/python setup.py build_ext --inplace -q > /tmp/mut_build.log 2>&1; fi
 /venv/bin/python -m pytest -q -p no:cacheprovider --timeout=900 tests/test_dtw.py tests/test_warping.py tests/test_bugs.py tests/test_cython.py 2>&1 | grep -E "passed|failed|error" | tail -1 > /tmp/t_with.log
 echo "demo with patch rc=$with_rc, without rc=$without_rc"; echo "tests without: $(cat /tmp/t_without.log)"; echo "tests with:    $(cat /tmp/t_with.log)"
